@@ -607,11 +607,11 @@ func bursts(n int, out *h.Out) error {
 		{"suffrage", "other-traffic"}, {"net", "equal-sets"}, {"node", "hash"}, {"defaultmap", "equal-sets"},
 		{"net", "none"}, {"suffrage", "none"}, {"node", "none"}, {"clientid", "other-traffic"}, {"defaultmap", "other-traffic"},
 		{"node", "other-traffic"}, {"clientid", "hash"}}
+	for i := len(specs); i < n; i++ { // drawn before any call, so that they depend on the seed only
+		specs = append(specs, spec{1 + rng.Intn(30), time.Duration(2+rng.Intn(120)) * time.Millisecond})
+	}
 	for i := 0; i < n; i++ {
-		s := specs[i%len(specs)]
-		if i >= len(specs) {
-			s = spec{1 + rng.Intn(30), time.Duration(2+rng.Intn(120)) * time.Millisecond}
-		}
+		s := specs[i]
 		span := 3 * s.d
 		if span > 250*time.Millisecond {
 			span = 250 * time.Millisecond
